@@ -39,6 +39,7 @@ def run(ctx, progs):
     ctx.rule("STORE1", "every path to Ok/None passes MaybeUninit::write(_, item) and a size increase")
     ctx.rule("FULL1", "Ok/None dominated by an edge establishing size<N; Err/Some by size>=N or N==0")
     ctx.assumptions.append("INV: size <= N on entry (preservation is checked by INV1 under C04)")
+    ctx.rule("INV1", "header stores of the insertion functions have the reviewed writers and value shapes")
     ctx.rule("TOTAL1", "no explicit panic site (in the debug build: no debug assertion) is feasible from the four insertion functions")
     for cfg, prog in progs.items():
         total1(ctx, prog, cfg)
@@ -52,6 +53,11 @@ def run(ctx, progs):
             found += 1
             check_fn(ctx, prog, f, kind, cfg)
         ctx.floor("C02", "insertion functions", found, 4, cfg)
+        # "without disturbing the other elements": what the four functions write to the header has the reviewed shapes
+        # (size + 1; start moved by one position through dec_start / inc_start) — a hand-computed `start` is reported here
+        from . import c04 as _c04
+
+        _c04.inv1(ctx, prog, cfg, only=set(TARGETS) | {"CircularBuffer::inc_size", "CircularBuffer::dec_start", "CircularBuffer::inc_start"})
 
 
 def total1(ctx, prog, cfg):
